@@ -63,6 +63,7 @@ func runC01(p *Prog, r *Report) {
 	c01R4(p, r)
 	c01R5(p, r)
 	c01R6(p, r)
+	c01R7(p, r)
 }
 
 func c01R1(p *Prog, r *Report) {
@@ -1287,4 +1288,271 @@ func varBoundedAt(p *Prog, fc *FuncCtx, o types.Object, at int, max int64, depth
 		}
 	}
 	return true
+}
+
+// c01R7: the identity-header chain. With n identity PSKs a client writes n identity headers; header
+// k is encrypted under iPSK k and carries the hash of the NEXT key of the chain (iPSK k+1, and the
+// user PSK for the last). Relays peel one header each. The tables that implement this are built in
+// crypto.go and consumed by index in DialStream and the UDP packer; an index slip only shows with
+// two or more identity PSKs, which the suite never configures.
+func c01R7(p *Prog, r *Report) {
+	const rule = "C01-R7"
+	r.Rule(rule, "identity-header chain tables agree: (a) in the function that builds the client's hash table every element store hashes[d] = H(iPSKs[s]) has s = d + 1 as linear forms (sources reached through a sub-slice or a range value are re-based), and the user PSK's hash goes to the last slot len(table)-1; (b) every cipher table built from the identity PSKs stores ciphers[k] from iPSKs[k]; (c) wherever a hash-table element and an identity cipher element are used in the same loop, their indices are equal linear forms")
+	pkg := p.Pkg("ss2022")
+	n := 0
+	// sourceIndex: the index into the parameter/field slice `base` that expression e (an element of it) denotes
+	type src struct {
+		base string
+		idx  linForm
+		ok   bool
+	}
+	var elemOf func(fc *FuncCtx, e ast.Expr, depth int) src
+	elemOf = func(fc *FuncCtx, e ast.Expr, depth int) src {
+		info := fc.Info()
+		e = ast.Unparen(e)
+		if depth > 6 {
+			return src{}
+		}
+		switch x := e.(type) {
+		case *ast.IndexExpr:
+			idx := linOf(p, fc, x.Index)
+			switch b := ast.Unparen(x.X).(type) {
+			case *ast.SliceExpr:
+				if b.Low != nil {
+					idx = idx.add(linOf(p, fc, b.Low), 1)
+				}
+				return src{normExpr(p, fc, b.X), idx, true}
+			default:
+				return src{normExpr(p, fc, x.X), idx, true}
+			}
+		case *ast.Ident:
+			o := objOf(info, x)
+			if o == nil {
+				return src{}
+			}
+			// range value variable
+			for _, v := range fc.G.V {
+				if v.Kind != VRange {
+					continue
+				}
+				rs := v.Stmt.(*ast.RangeStmt)
+				if rs.Value == nil || objOf(info, rs.Value) != o || rs.Key == nil {
+					continue
+				}
+				ko := objOf(info, rs.Key)
+				if ko == nil {
+					return src{}
+				}
+				idx := linForm{ko.Name(): 1}
+				switch b := ast.Unparen(rs.X).(type) {
+				case *ast.SliceExpr:
+					if b.Low != nil {
+						idx = idx.add(linOf(p, fc, b.Low), 1)
+					}
+					return src{normExpr(p, fc, b.X), idx, true}
+				default:
+					return src{normExpr(p, fc, rs.X), idx, true}
+				}
+			}
+			if rhs, _, _, sole := fc.SoleDefRHS(o); sole {
+				return elemOf(fc, rhs, depth+1)
+			}
+		}
+		return src{}
+	}
+	// hashArg: e is (a conversion / slicing of) the result of a hash call; returns the call's argument
+	var hashArg func(fc *FuncCtx, e ast.Expr, depth int) ast.Expr
+	hashArg = func(fc *FuncCtx, e ast.Expr, depth int) ast.Expr {
+		info := fc.Info()
+		e = ast.Unparen(e)
+		if depth > 6 {
+			return nil
+		}
+		switch x := e.(type) {
+		case *ast.CallExpr:
+			if inner, ok := isConversion(info, x); ok {
+				return hashArg(fc, inner, depth+1)
+			}
+			if fn := Callee(info, x); fn != nil && fn.Pkg() != nil && strings.HasSuffix(fn.Pkg().Path(), "blake3") && len(x.Args) == 1 {
+				return x.Args[0]
+			}
+		case *ast.SliceExpr:
+			return hashArg(fc, x.X, depth+1)
+		case *ast.Ident:
+			if o := objOf(info, x); o != nil {
+				if rhs, _, _, sole := fc.SoleDefRHS(o); sole {
+					return hashArg(fc, rhs, depth+1)
+				}
+			}
+		}
+		return nil
+	}
+	isHashTable := func(t types.Type) bool {
+		sl, ok := t.Underlying().(*types.Slice)
+		if !ok {
+			return false
+		}
+		ar, ok := sl.Elem().Underlying().(*types.Array)
+		if !ok {
+			return false
+		}
+		b, ok := ar.Elem().Underlying().(*types.Basic)
+		return ok && b.Kind() == types.Uint8
+	}
+	isBlockTable := func(t types.Type) bool {
+		sl, ok := t.Underlying().(*types.Slice)
+		return ok && strings.HasSuffix(sl.Elem().String(), "crypto/cipher.Block")
+	}
+	isKeyTable := func(t types.Type) bool {
+		sl, ok := t.Underlying().(*types.Slice)
+		if !ok {
+			return false
+		}
+		in, ok := sl.Elem().Underlying().(*types.Slice)
+		if !ok {
+			return false
+		}
+		b, ok := in.Elem().Underlying().(*types.Basic)
+		return ok && b.Kind() == types.Uint8
+	}
+	nA, nB, nC := 0, 0, 0
+	p.AllFuncs(pkg, func(top *FuncCtx) {
+		for _, fc := range allCtxs(p, top) {
+			info := fc.Info()
+			for _, v := range fc.G.V {
+				as, ok := v.Node.(*ast.AssignStmt)
+				if !ok || v.Kind != VStmt {
+					continue
+				}
+				for i, l := range as.Lhs {
+					ix, isIx := ast.Unparen(l).(*ast.IndexExpr)
+					if !isIx || i >= len(as.Rhs) && len(as.Rhs) != 1 {
+						continue
+					}
+					tt := info.TypeOf(ix.X)
+					if tt == nil {
+						continue
+					}
+					switch {
+					case isHashTable(tt):
+						// (a)
+						var rhs ast.Expr
+						if len(as.Rhs) == len(as.Lhs) {
+							rhs = as.Rhs[i]
+						} else {
+							continue
+						}
+						arg := hashArg(fc, rhs, 0)
+						if arg == nil {
+							continue
+						}
+						d := linOf(p, fc, ix.Index)
+						construct := fmt.Sprintf("%s:hash-slot:%s", fc.Name, normExpr(p, fc, arg))
+						if at := info.TypeOf(arg); at != nil && isKeyTable(at) {
+							continue
+						}
+						s := elemOf(fc, arg, 0)
+						nA++
+						n++
+						if s.ok {
+							diff := s.idx.add(d, -1).add(linForm{"": 1}, -1)
+							r.Check(diff.isZero(), rule, construct, p.posStr(as.Pos()), "identity header k carries the hash of identity key k+1",
+								fmt.Sprintf("the hash table slot %s is filled with the hash of element %s of %s: header k must carry the hash of key k+1 (source index − slot index = 1, found %s); with two or more identity keys the first relay finds a hash nobody holds and rejects the connection", d, s.idx, s.base, s.idx.add(d, -1)))
+						} else {
+							// the user PSK: must go to the last slot
+							tbl := normExpr(p, fc, ix.X)
+							want := linForm{"len(" + tbl + ")": 1, "": -1}
+							got := linOf(p, fc, ix.Index)
+							okLast := got.add(want, -1).isZero()
+							if !okLast {
+								// len(hashes) may be expressed through the make length
+								if o := objOf(info, ix.X); o != nil {
+									if mk, _, _, sole := fc.SoleDefRHS(o); sole {
+										if c, isC := ast.Unparen(mk).(*ast.CallExpr); isC && exprStr(c.Fun) == "make" && len(c.Args) >= 2 {
+											okLast = got.add(linOf(p, fc, c.Args[1]), -1).add(linForm{"": 1}, 1).isZero()
+										}
+									}
+								}
+							}
+							r.Check(okLast, rule, construct, p.posStr(as.Pos()), "the user key's hash fills the last slot", fmt.Sprintf("the hash of %s is stored at slot %s, not at the last slot of the table: the last identity header does not name the user key", exprStr(arg), got))
+						}
+					case isBlockTable(tt):
+						// (b)
+						var call *ast.CallExpr
+						if len(as.Rhs) == 1 {
+							call, _ = ast.Unparen(as.Rhs[0]).(*ast.CallExpr)
+						}
+						if call == nil {
+							continue
+						}
+						for _, a := range call.Args {
+							at := info.TypeOf(a)
+							if at == nil {
+								continue
+							}
+							ax, isAx := ast.Unparen(a).(*ast.IndexExpr)
+							if !isAx {
+								continue
+							}
+							if bt := info.TypeOf(ax.X); bt == nil || !isKeyTable(bt) {
+								continue
+							}
+							nB++
+							n++
+							d := linOf(p, fc, ix.Index)
+							s := linOf(p, fc, ax.Index)
+							r.Check(s.add(d, -1).isZero(), rule, fmt.Sprintf("%s:cipher-slot:%s", fc.Name, normExpr(p, fc, ax.X)), p.posStr(as.Pos()), "cipher k is derived from identity key k",
+								fmt.Sprintf("cipher table slot %s is derived from identity key %s: header k would be encrypted under another hop's key", d, s))
+						}
+					}
+				}
+			}
+			// (c) uses inside loops
+			for _, v := range fc.G.V {
+				var body *ast.BlockStmt
+				switch v.Kind {
+				case VRange:
+					body = v.Stmt.(*ast.RangeStmt).Body
+				default:
+					if fs, ok := v.Stmt.(*ast.ForStmt); ok && v.Kind == VCond {
+						body = fs.Body
+					}
+				}
+				if body == nil {
+					continue
+				}
+				var hashIdx, blockIdx []*ast.IndexExpr
+				inspectNoLit(body, func(x ast.Node) bool {
+					if ix, ok := x.(*ast.IndexExpr); ok {
+						if t := info.TypeOf(ix.X); t != nil {
+							if isHashTable(t) {
+								hashIdx = append(hashIdx, ix)
+							} else if isBlockTable(t) {
+								blockIdx = append(blockIdx, ix)
+							}
+						}
+					}
+					return true
+				})
+				if len(hashIdx) == 0 || len(blockIdx) == 0 {
+					continue
+				}
+				for _, h := range hashIdx {
+					for _, b := range blockIdx {
+						// stores into the tables are (a)/(b); here both are reads
+						nC++
+						n++
+						hl, bl := linOf(p, fc, h.Index), linOf(p, fc, b.Index)
+						r.Check(hl.add(bl, -1).isZero(), rule, fmt.Sprintf("%s:header-uses-own-cipher:%s/%s", fc.Name, normExpr(p, fc, h.X), normExpr(p, fc, b.X)), p.posStr(h.Pos()), "hash k is encrypted with cipher k",
+							fmt.Sprintf("identity hash %s is combined with identity cipher %s in the same loop: header k must be the hash of slot k under cipher k", exprStr(h), exprStr(b)))
+					}
+				}
+			}
+		}
+	})
+	r.Count("hash_slot_stores", nA)
+	r.Count("cipher_slot_stores", nB)
+	r.Count("paired_uses", nC)
+	r.Check(nA >= 2 && nB >= 2 && nC >= 2, rule, "ss2022:identity-chain-sites-found", "", "hash stores, cipher stores and paired uses found", fmt.Sprintf("identity chain sites found: %d hash stores, %d cipher stores, %d paired uses (expected at least 2 of each)", nA, nB, nC))
+	r.Floor(rule, 4)
 }
